@@ -629,7 +629,7 @@ impl State {
             );
         }
 
-        for change in decode_state.changes.drain(..) {
+        for change in decode_state.changes.drain(..).rev() {
             self.apply_backward_change(&mut adds, &mut removes, change);
         }
 
